@@ -62,6 +62,21 @@ func ExtraValues() []GV {
 		GV{"mapkeys#iface", "map-keys", map[interface{}]interface{}{int64(-300): "a", int64(300): "b", "300": "c", "-300": "d", true: "e", "true": "f"}},
 		GV{"mapkeys#str", "map-keys", map[string]int{"": 0, "a": 1, "A": 2, "a ": 3, "é": 4, "é": 5}},
 	)
+	// exported field names with non-ASCII upper-case letters (first rune and inside), and a nil pointer between fields
+	out = append(out,
+		GV{"unicode-fields#0", "unicode-field-names", struct {
+			Ärger int
+			NaÏve string
+			Größe float64
+			Ωmega []int16
+		}{5, "x", 1.5, []int16{1, 2}}},
+		GV{"nilptr-between-fields#0", "nil-pointer-field", struct {
+			A int
+			P *int
+			Q *string
+			B string
+		}{1, nil, nil, "b"}},
+	)
 	// long arrays: payloads on both sides of 64 KiB (the binary reader's read-ahead step) and beyond two steps
 	for _, n := range []int{65535, 65536, 65537, 140000} {
 		u32 := make([]uint32, n/4+1)
